@@ -12,8 +12,8 @@ use tantivy::{DocAddress, Index, IndexSettings, IndexWriter, TantivyDocument, Te
 use crate::common::*;
 
 /// a document of the alphabet, by name (replayable)
-pub const ALPHABET: [&str; 20] = [
-    "empty", "text", "text2", "u64", "i64", "f64", "date", "bool", "bytes", "ip", "facet", "json_nested", "json_edge", "unicode", "text40k", "stored_and_not", "mixed_all", "len127", "len128", "len16384",
+pub const ALPHABET: [&str; 21] = [
+    "empty", "text", "text2", "u64", "i64", "f64", "date", "bool", "bytes", "ip", "facet", "json_nested", "json_edge", "unicode", "text40k", "stored_and_not", "mixed_all", "len127", "len128", "len16384", "interleaved120",
 ];
 
 pub fn make_schema() -> Schema {
@@ -80,6 +80,9 @@ pub fn alphabet_doc(name: &str) -> Vec<(&'static str, OwnedValue)> {
             ("y", OwnedValue::Bytes(vec![1, 2, 3])),
             ("f", OwnedValue::F64(2.5)),
         ],
+        // 120 values of three fields, interleaved, highest field first (the named / JSON views group them by
+        // field and must keep the order of the values of each field)
+        "interleaved120" => (0..40u64).flat_map(|k| vec![("i", OwnedValue::I64(-(k as i64))), ("u", OwnedValue::U64(1000 + k)), ("t", OwnedValue::Str(format!("v{k:03}")))]).collect(),
         "len127" => vec![("t", OwnedValue::Str("x".repeat(127)))],
         "len128" => vec![("t", OwnedValue::Str("x".repeat(128)))],
         "len16384" => vec![("t", OwnedValue::Str("y".repeat(16_384))), ("y", OwnedValue::Bytes(vec![9u8; 16_383]))],
@@ -236,6 +239,38 @@ pub fn check_case(c: &Case, st: &mut Stats) -> Option<(String, String)> {
             let gv = values_of(&got);
             if gv != want {
                 return Some(("stored_doc_differs".into(), format!("doc id {id} ({}): fetched {} expected {}", c.docs[id], short(&gv), short(&want))));
+            }
+            // the named view (and the JSON encoding made from it) groups the values by field and keeps the
+            // order of the values of each field
+            {
+                use tantivy::schema::document::Document;
+                let named = got.to_named_doc(&schema);
+                let mut by_field: BTreeMap<String, Vec<OwnedValue>> = BTreeMap::new();
+                for (fid, v) in &want {
+                    by_field.entry(schema.get_field_name(Field::from_field_id(*fid)).to_string()).or_default().push(v.clone());
+                }
+                if named.0 != by_field {
+                    let bad = by_field.iter().find(|(k, v)| named.0.get(*k) != Some(v)).map(|(k, _)| k.clone()).unwrap_or_default();
+                    return Some(("named_doc_differs".into(), format!("doc id {id} ({}): to_named_doc field {bad:?} = {:?}, the values were added as {:?}", c.docs[id], named.0.get(&bad).map(|v| format!("{v:?}").chars().take(200).collect::<String>()), by_field.get(&bad).map(|v| format!("{v:?}").chars().take(200).collect::<String>()))));
+                }
+                let js: Value = match serde_json::from_str(&got.to_json(&schema)) {
+                    Ok(v) => v,
+                    Err(e) => return Some(("doc_json_invalid".into(), format!("doc id {id}: to_json is not JSON: {e}"))),
+                };
+                for (k, vals) in &by_field {
+                    let arr = js.get(k).and_then(|a| a.as_array()).cloned().unwrap_or_default();
+                    if arr.len() != vals.len() {
+                        return Some(("doc_json_differs".into(), format!("doc id {id}: to_json field {k:?} holds {} values, {} were added", arr.len(), vals.len())));
+                    }
+                    for (a, v) in arr.iter().zip(vals.iter()) {
+                        if let OwnedValue::Str(sv) = v {
+                            if a.as_str() != Some(sv.as_str()) {
+                                return Some(("doc_json_differs".into(), format!("doc id {id}: to_json field {k:?} holds {:?} where {:?} was added", a.as_str().map(|x| x.chars().take(40).collect::<String>()), sv.chars().take(40).collect::<String>())));
+                            }
+                        }
+                    }
+                }
+                st.count("named_views");
             }
         }
         // 2. store reader with several cache sizes and access orders
